@@ -2,6 +2,13 @@
 from harness import asmgen
 from harness import armgen
 from harness import x64gen
+from harness import mipsgen
+from harness import or1kgen
+from harness import mbgen
+from harness import msp430gen
+from harness import avrgen
+from harness import m68kgen
+from harness import xtensagen
 
 
 def report(ctx, prop, verdicts, what):
@@ -41,6 +48,13 @@ class Engine:
         thorough = (ctx.only.get("tier", ctx.tier) if ctx.only else ctx.tier) == "thorough"
         if armgen.c08_part(ctx, thorough): return  # thumb / arm (tla/Thumb.tla, tla/Arm32.tla); True: a replay of one of its cases
         if x64gen.c08_part(ctx, thorough): return  # x86_64 (tla/X64.tla); True: a replay of one of its cases
+        if mipsgen.c08_part(ctx, thorough): return  # mips (tla/Mips.tla); True: a replay of one of its cases
+        if or1kgen.c08_part(ctx, thorough): return  # or1k (tla/Or1k.tla); True: a replay of one of its cases
+        if mbgen.c08_part(ctx, thorough): return  # microblaze (tla/MicroBlaze.tla); True: a replay of one of its cases
+        if msp430gen.c08_part(ctx, thorough): return  # msp430 (tla/Msp430.tla); True: a replay of one of its cases
+        if avrgen.c08_part(ctx, thorough): return  # avr (tla/Avr.tla); True: a replay of one of its cases
+        if m68kgen.c08_part(ctx, thorough): return  # m68k (tla/M68k.tla); True: a replay of one of its cases
+        if xtensagen.c08_part(ctx, thorough): return  # xtensa (tla/Xtensa.tla); True: a replay of one of its cases
         ctx.rule("every concrete instruction class of ppci.arch.riscv (isa, rvcisa) x {each register slot swept over "
                  "x0..x31, diagonal, every in-range boundary immediate / displacement enumerated by TLC from "
                  "RV32.FieldRange, symbol addresses for %hi/%lo forms}; bytes = encode() (+ own relocation applied; "
